@@ -326,6 +326,7 @@ class FormatValue(Contract):
     target = "mappyfile.pprint.PrettyPrinter.format_value"
     props = ("C03", "C01", "C04", "C06")
     modifies = ()
+    reads = {0: {"quoter"}}     # C06: the value text depends on no formatting option other than the quote
     doc = ("cases = every schema slot (quick: one slot per distinct schema shape) x every value kind the slot's "
            "schema admits (+ the empty auto-created dict) x output quote.  Preconditions (from the property's "
            "quantifier): a string value does not contain the output quote character and has no leading/trailing "
@@ -447,8 +448,9 @@ FormatValue.at_call = lambda self, E, pp, attr, attr_props, value: (
 class GetAttributeProperties(Contract):
     """returns the schema node of the keyword as expanded by the validator ({} for an unknown keyword)"""
     target = "mappyfile.pprint.PrettyPrinter.get_attribute_properties"
-    props = ("C03", "C19")
+    props = ("C03", "C19", "C06")
     modifies = ()
+    reads = {0: {"validator"}}
 
     @property
     def cases(self):
@@ -1127,11 +1129,11 @@ class FormatPairList(Contract):
 @register
 class FormatRepeatedPairList(Contract):
     target = "mappyfile.pprint.PrettyPrinter.format_repeated_pair_list"
-    cases = ["single:1", "single:2", "multi:2", "multi:1"]
+    cases = ["single:0", "single:1", "single:2", "multi:2", "multi:1"]
     props = ("C16", "C03")
     modifies = ()
     doc = ("shape-bounded: one part of 1-2 pairs / 1-2 parts (the depth() helper recurses over the concrete shape); "
-           "an empty pair list is outside the precondition (max() of an empty sequence)")
+           "the empty list is one (empty) block")
 
     def build(self, E, case):
         kind, n = case.split(":")
